@@ -998,13 +998,8 @@ func (c *DnsController) syncDnsKnowledgeLocked(baseKey string) {
 			c.dnsCache.Delete(cacheKey)
 			return true
 		}
-		verifsim.Yield("dns_control.go:929")
 
-		expiresAt := cache.deadlineNano.Load()
-		if expiresAt == 0 {
-
-			expiresAt = cache.OriginalDeadline.UnixNano()
-		}
+		expiresAt := cache.OriginalDeadline.UnixNano()
 		if expiresAt > nowNano && expiresAt > maxExpiresAt {
 			maxExpiresAt = expiresAt
 		}
@@ -1012,11 +1007,11 @@ func (c *DnsController) syncDnsKnowledgeLocked(baseKey string) {
 	})
 
 	if maxExpiresAt == 0 {
-		verifsim.Yield("dns_control.go:941")
+		verifsim.Yield("dns_control.go:934")
 		c.dnsKnowledge.Delete(baseKey)
 		return
 	}
-	verifsim.Yield("dns_control.go:944")
+	verifsim.Yield("dns_control.go:937")
 	c.dnsKnowledge.Store(baseKey, maxExpiresAt)
 }
 
@@ -1025,19 +1020,19 @@ func (c *DnsController) HasDnsKnowledge(baseKey string) bool {
 	if baseKey == "" {
 		return false
 	}
-	verifsim.Yield("dns_control.go:952")
+	verifsim.Yield("dns_control.go:945")
 	value, ok := c.dnsKnowledge.Load(baseKey)
 	if !ok {
 		return false
 	}
 	expiresAt, ok := value.(int64)
 	if !ok {
-		verifsim.Yield("dns_control.go:958")
+		verifsim.Yield("dns_control.go:951")
 		c.dnsKnowledge.Delete(baseKey)
 		return false
 	}
 	if expiresAt <= time.Now().UnixNano() {
-		verifsim.Yield("dns_control.go:962")
+		verifsim.Yield("dns_control.go:955")
 		c.dnsKnowledge.CompareAndDelete(baseKey, value)
 		return false
 	}
@@ -1046,11 +1041,11 @@ func (c *DnsController) HasDnsKnowledge(baseKey string) bool {
 
 func (c *DnsController) startBpfUpdateWorker() {
 	c.requireStore()
-	verifsim.Yield("dns_control.go:972")
+	verifsim.Yield("dns_control.go:965")
 	c.bpfUpdateOnce.Do(func() {
-		verifsim.Yield("dns_control.go:973")
+		verifsim.Yield("dns_control.go:966")
 		c.bpfUpdateStopMu.Lock()
-		verifsim.Yield("dns_control.go:974")
+		verifsim.Yield("dns_control.go:967")
 		if c.bpfUpdateClosed.Load() {
 			c.bpfUpdateStopMu.Unlock()
 			return
@@ -1058,12 +1053,12 @@ func (c *DnsController) startBpfUpdateWorker() {
 		const bpfUpdateQueueSize = 1024
 		c.bpfUpdateCh = make(chan *bpfUpdateTask, bpfUpdateQueueSize)
 		c.bpfUpdateStop = make(chan struct{})
-		verifsim.Yield("dns_control.go:981")
+		verifsim.Yield("dns_control.go:974")
 		c.bpfUpdateWg.Add(1)
 		c.bpfUpdateStopMu.Unlock()
 		{
 			_vf8 := c.bpfUpdateWorker
-			verifsim.Go("dns_control.go:983", func() {
+			verifsim.Go("dns_control.go:976", func() {
 				_vf8()
 			})
 		}
@@ -1095,12 +1090,12 @@ func (c *DnsController) bpfUpdateWorker() {
 
 	for {
 		{
-			verifsim.Yield("dns_control.go:1024")
+			verifsim.Yield("dns_control.go:1017")
 			_vc9 := c.bpfUpdateCh
 			var _vr10 = verifsim.ChanZero(_vc9)
 			_vc11 := c.bpfUpdateStop
 			_vi12 := -1
-			for _, _vo13 := range verifsim.SelectOrder("dns_control.go:1024", 2) {
+			for _, _vo13 := range verifsim.SelectOrder("dns_control.go:1017", 2) {
 				switch _vo13 {
 				case 0:
 					select {
@@ -1126,7 +1121,7 @@ func (c *DnsController) bpfUpdateWorker() {
 				case <-_vc11:
 					_vi12 = 1
 				}
-				verifsim.Yield("dns_control.go:1024+")
+				verifsim.Yield("dns_control.go:1017+")
 			}
 			switch _vi12 {
 			case 0:
@@ -1148,11 +1143,11 @@ func (c *DnsController) bpfUpdateWorker() {
 func (c *DnsController) drainBpfUpdateTasks(draining bool) {
 	for {
 		{
-			verifsim.Yield("dns_control.go:1040")
+			verifsim.Yield("dns_control.go:1033")
 			_vc14 := c.bpfUpdateCh
 			var _vr15 = verifsim.ChanZero(_vc14)
 			_vi16 := -1
-			for _, _vo17 := range verifsim.SelectOrder("dns_control.go:1040", 1) {
+			for _, _vo17 := range verifsim.SelectOrder("dns_control.go:1033", 1) {
 				switch _vo17 {
 				case 0:
 					select {
@@ -1187,14 +1182,14 @@ func (c *DnsController) triggerBpfUpdateIfNeeded(cache *DnsCache, now time.Time)
 	if !cache.NeedsBpfUpdate(now) {
 		return
 	}
-	verifsim.Yield("dns_control.go:1062")
+	verifsim.Yield("dns_control.go:1055")
 
 	if c.bpfUpdateClosed.Load() {
 		return
 	}
 
 	c.startBpfUpdateWorker()
-	verifsim.Yield("dns_control.go:1068")
+	verifsim.Yield("dns_control.go:1061")
 
 	if c.bpfUpdateClosed.Load() {
 		return
@@ -1208,12 +1203,12 @@ func (c *DnsController) triggerBpfUpdateIfNeeded(cache *DnsCache, now time.Time)
 }
 
 func (c *DnsController) sendBpfUpdateTask(task *bpfUpdateTask) (sent bool) {
-	verifsim.Yield("dns_control.go:1082")
+	verifsim.Yield("dns_control.go:1075")
 
 	if c.bpfUpdateClosed.Load() {
 		return false
 	}
-	verifsim.Yield("dns_control.go:1085")
+	verifsim.Yield("dns_control.go:1078")
 	c.bpfUpdateStopMu.Lock()
 	bpfUpdateCh := c.bpfUpdateCh
 	c.bpfUpdateStopMu.Unlock()
@@ -1221,11 +1216,11 @@ func (c *DnsController) sendBpfUpdateTask(task *bpfUpdateTask) (sent bool) {
 		return false
 	}
 	{
-		verifsim.Yield("dns_control.go:1094")
+		verifsim.Yield("dns_control.go:1087")
 		_vc18 := bpfUpdateCh
 		_vs19 := task
 		_vi20 := -1
-		for _, _vo21 := range verifsim.SelectOrder("dns_control.go:1094", 1) {
+		for _, _vo21 := range verifsim.SelectOrder("dns_control.go:1087", 1) {
 			switch _vo21 {
 			case 0:
 				select {
@@ -1257,10 +1252,10 @@ func (c *DnsController) onDnsCacheEvicted(cache *DnsCache) {
 
 	if c.janitorStop != nil {
 		{
-			verifsim.Yield("dns_control.go:1110")
+			verifsim.Yield("dns_control.go:1103")
 			_vc22 := c.janitorStop
 			_vi23 := -1
-			for _, _vo24 := range verifsim.SelectOrder("dns_control.go:1110", 1) {
+			for _, _vo24 := range verifsim.SelectOrder("dns_control.go:1103", 1) {
 				switch _vo24 {
 				case 0:
 					select {
@@ -1282,7 +1277,7 @@ func (c *DnsController) onDnsCacheEvicted(cache *DnsCache) {
 		}
 
 	}
-	verifsim.Yield("dns_control.go:1118")
+	verifsim.Yield("dns_control.go:1111")
 
 	c.evictorChMu.RLock()
 	evictorQ := c.evictorQ
@@ -1292,11 +1287,11 @@ func (c *DnsController) onDnsCacheEvicted(cache *DnsCache) {
 		return
 	}
 	{
-		verifsim.Yield("dns_control.go:1126")
+		verifsim.Yield("dns_control.go:1119")
 		_vc25 := evictorQ
 		_vs26 := cache
 		_vi27 := -1
-		for _, _vo28 := range verifsim.SelectOrder("dns_control.go:1126", 1) {
+		for _, _vo28 := range verifsim.SelectOrder("dns_control.go:1119", 1) {
 			switch _vo28 {
 			case 0:
 				select {
@@ -1323,7 +1318,7 @@ func (c *DnsController) enqueueEvictorSpill(cache *DnsCache) {
 	if cache == nil {
 		return
 	}
-	verifsim.Yield("dns_control.go:1142")
+	verifsim.Yield("dns_control.go:1135")
 
 	c.evictorChMu.RLock()
 	evictorWake := c.evictorWake
@@ -1332,17 +1327,17 @@ func (c *DnsController) enqueueEvictorSpill(cache *DnsCache) {
 		c.invokeCacheRemoveCallback(cache)
 		return
 	}
-	verifsim.Yield("dns_control.go:1150")
+	verifsim.Yield("dns_control.go:1143")
 
 	c.evictorMu.Lock()
 	c.evictorBuf = append(c.evictorBuf, cache)
 	c.evictorMu.Unlock()
 	{
-		verifsim.Yield("dns_control.go:1154")
+		verifsim.Yield("dns_control.go:1147")
 		_vc29 := evictorWake
 		_vs30 := struct{}{}
 		_vi31 := -1
-		for _, _vo32 := range verifsim.SelectOrder("dns_control.go:1154", 1) {
+		for _, _vo32 := range verifsim.SelectOrder("dns_control.go:1147", 1) {
 			switch _vo32 {
 			case 0:
 				select {
@@ -1364,7 +1359,7 @@ func (c *DnsController) enqueueEvictorSpill(cache *DnsCache) {
 }
 
 func (c *DnsController) takeEvictorSpillBatch() []*DnsCache {
-	verifsim.Yield("dns_control.go:1161")
+	verifsim.Yield("dns_control.go:1154")
 	c.evictorMu.Lock()
 	defer c.evictorMu.Unlock()
 	if len(c.evictorBuf) == 0 {
@@ -1415,7 +1410,7 @@ func (c *DnsController) evictDnsRespCacheIfSame(cacheKey string, cache *DnsCache
 	if cache == nil {
 		return
 	}
-	verifsim.Yield("dns_control.go:1211")
+	verifsim.Yield("dns_control.go:1204")
 	if c.dnsCache.CompareAndDelete(cacheKey, cache) {
 		baseKey := dnsCacheBaseKey(cacheKey)
 		c.forgetDnsKnowledge(cacheKey, cache)
@@ -1430,17 +1425,17 @@ func (c *DnsController) evictExpiredDnsCache(now time.Time) {
 	useTimeBasedEviction := optimisticCacheTtl > 0 || (optimisticCacheTtl == 0 && maxCacheSize == 0)
 
 	if useTimeBasedEviction {
-		verifsim.Yield("dns_control.go:1228")
+		verifsim.Yield("dns_control.go:1221")
 		c.dnsCache.Range(func(key, value any) bool {
 			cacheKey, ok := key.(string)
 			if !ok {
-				verifsim.Yield("dns_control.go:1231")
+				verifsim.Yield("dns_control.go:1224")
 				c.dnsCache.Delete(key)
 				return true
 			}
 			cache, ok := value.(*DnsCache)
 			if !ok {
-				verifsim.Yield("dns_control.go:1236")
+				verifsim.Yield("dns_control.go:1229")
 				c.dnsCache.Delete(cacheKey)
 				return true
 			}
@@ -1465,7 +1460,7 @@ func (c *DnsController) evictExpiredDnsCache(now time.Time) {
 }
 
 func (c *DnsController) takeLRUScratch(minCap int) []cacheEntry {
-	verifsim.Yield("dns_control.go:1266")
+	verifsim.Yield("dns_control.go:1259")
 	c.lruScratchMu.Lock()
 	defer c.lruScratchMu.Unlock()
 
@@ -1485,7 +1480,7 @@ func (c *DnsController) putLRUScratch(entries []cacheEntry) {
 	}
 
 	clear(entries)
-	verifsim.Yield("dns_control.go:1286")
+	verifsim.Yield("dns_control.go:1279")
 
 	c.lruScratchMu.Lock()
 	if cap(entries) > cap(c.lruScratch) {
@@ -1498,7 +1493,7 @@ func (c *DnsController) evictLRUIfFull() {
 	_, _, maxCacheSize := c.currentOptimisticCacheConfig()
 	// Count current cache size
 	var count int
-	verifsim.Yield("dns_control.go:1302")
+	verifsim.Yield("dns_control.go:1295")
 	c.dnsCache.Range(func(_, _ any) bool {
 		count++
 		return true
@@ -1515,7 +1510,7 @@ func (c *DnsController) evictLRUIfFull() {
 	defer func() {
 		c.putLRUScratch(scratch)
 	}()
-	verifsim.Yield("dns_control.go:1322")
+	verifsim.Yield("dns_control.go:1315")
 	c.dnsCache.Range(func(key, value any) bool {
 		cacheKey, ok := key.(string)
 		if !ok {
@@ -1525,7 +1520,7 @@ func (c *DnsController) evictLRUIfFull() {
 		if !ok {
 			return true
 		}
-		verifsim.Yield("dns_control.go:1331")
+		verifsim.Yield("dns_control.go:1324")
 		entries = append(entries, cacheEntry{
 			key:		cacheKey,
 			lastAccess:	cache.lastAccessNano.Load(),
@@ -1554,7 +1549,7 @@ func (c *DnsController) evictLRUIfFull() {
 		if evicted >= numToEvict {
 			break
 		}
-		verifsim.Yield("dns_control.go:1368")
+		verifsim.Yield("dns_control.go:1361")
 
 		if val, ok := c.dnsCache.Load(entry.key); ok {
 			if cache, ok := val.(*DnsCache); ok {
@@ -1567,19 +1562,19 @@ func (c *DnsController) evictLRUIfFull() {
 
 func (c *DnsController) startDnsCacheJanitor() {
 	c.requireStore()
-	verifsim.Go("dns_control.go:1385", func() {
+	verifsim.Go("dns_control.go:1378", func() {
 		ticker := time.NewTicker(dnsCacheJanitorInterval)
 		defer ticker.Stop()
 		defer close(c.janitorDone)
 
 		for {
 			{
-				verifsim.Yield("dns_control.go:1391")
+				verifsim.Yield("dns_control.go:1384")
 				_vc33 := c.janitorStop
 				_vc34 := ticker.C
 				var _vr35 = verifsim.ChanZero(_vc34)
 				_vi36 := -1
-				for _, _vo37 := range verifsim.SelectOrder("dns_control.go:1391", 2) {
+				for _, _vo37 := range verifsim.SelectOrder("dns_control.go:1384", 2) {
 					switch _vo37 {
 					case 0:
 						select {
@@ -1605,7 +1600,7 @@ func (c *DnsController) startDnsCacheJanitor() {
 					case _vr35 = <-_vc34:
 						_vi36 = 1
 					}
-					verifsim.Yield("dns_control.go:1391+")
+					verifsim.Yield("dns_control.go:1384+")
 				}
 				switch _vi36 {
 				case 0:
@@ -1625,7 +1620,7 @@ func (c *DnsController) startDnsCacheJanitor() {
 
 func (c *DnsController) startCacheEvictor() {
 	c.requireStore()
-	verifsim.Go("dns_control.go:1410", func() {
+	verifsim.Go("dns_control.go:1403", func() {
 		defer close(c.evictorDone)
 		if c.evictorQ == nil {
 			return
@@ -1636,13 +1631,13 @@ func (c *DnsController) startCacheEvictor() {
 
 		for {
 			{
-				verifsim.Yield("dns_control.go:1420")
+				verifsim.Yield("dns_control.go:1413")
 				_vc38 := c.evictorQ
 				var _vr39 = verifsim.ChanZero(_vc38)
 				_vc40 := c.evictorWake
 				_vc41 := c.janitorStop
 				_vi42 := -1
-				for _, _vo43 := range verifsim.SelectOrder("dns_control.go:1420", 3) {
+				for _, _vo43 := range verifsim.SelectOrder("dns_control.go:1413", 3) {
 					switch _vo43 {
 					case 0:
 						select {
@@ -1676,7 +1671,7 @@ func (c *DnsController) startCacheEvictor() {
 					case <-_vc41:
 						_vi42 = 2
 					}
-					verifsim.Yield("dns_control.go:1420+")
+					verifsim.Yield("dns_control.go:1413+")
 				}
 				switch _vi42 {
 				case 0:
@@ -1690,11 +1685,11 @@ func (c *DnsController) startCacheEvictor() {
 
 					for {
 						{
-							verifsim.Yield("dns_control.go:1428")
+							verifsim.Yield("dns_control.go:1421")
 							_vc44 := c.evictorQ
 							var _vr45 = verifsim.ChanZero(_vc44)
 							_vi46 := -1
-							for _, _vo47 := range verifsim.SelectOrder("dns_control.go:1428", 1) {
+							for _, _vo47 := range verifsim.SelectOrder("dns_control.go:1421", 1) {
 								switch _vo47 {
 								case 0:
 									select {
@@ -1730,7 +1725,7 @@ func (c *DnsController) startCacheEvictor() {
 
 func (c *DnsController) LookupDnsRespCache(cacheKey string, ignoreFixedTtl bool) (cache *DnsCache) {
 	c.requireStore()
-	verifsim.Yield("dns_control.go:1443")
+	verifsim.Yield("dns_control.go:1436")
 	val, ok := c.dnsCache.Load(cacheKey)
 	if !ok {
 		return nil
@@ -1755,7 +1750,7 @@ func (c *DnsController) LookupDnsRespCache(cacheKey string, ignoreFixedTtl bool)
 
 func (c *DnsController) LookupDnsRespCache_(msg *dnsmessage.Msg, cacheKey string, ignoreFixedTtl bool) (resp []byte, needRefresh bool) {
 	c.requireStore()
-	verifsim.Yield("dns_control.go:1477")
+	verifsim.Yield("dns_control.go:1470")
 
 	val, ok := c.dnsCache.Load(cacheKey)
 	if !ok {
@@ -1764,7 +1759,7 @@ func (c *DnsController) LookupDnsRespCache_(msg *dnsmessage.Msg, cacheKey string
 	cache := val.(*DnsCache)
 
 	now := time.Now()
-	verifsim.Yield("dns_control.go:1486")
+	verifsim.Yield("dns_control.go:1479")
 
 	cache.lastAccessNano.Store(now.UnixNano())
 
@@ -1801,7 +1796,7 @@ func (c *DnsController) LookupDnsRespCache_(msg *dnsmessage.Msg, cacheKey string
 	if optimisticCacheEnabled {
 
 		if resp = cache.GetStaleResponse(now, optimisticCacheTtl); resp != nil {
-			verifsim.Yield("dns_control.go:1531")
+			verifsim.Yield("dns_control.go:1524")
 
 			if cache.refreshing.CompareAndSwap(false, true) {
 				needRefresh = true
@@ -1945,7 +1940,7 @@ func (c *DnsController) __updateDnsCacheDeadline(cacheKey string, host string, d
 	if err != nil {
 		return err
 	}
-	verifsim.Yield("dns_control.go:1687")
+	verifsim.Yield("dns_control.go:1680")
 
 	newCache.deadlineNano.Store(deadline.UnixNano())
 
@@ -1955,17 +1950,17 @@ func (c *DnsController) __updateDnsCacheDeadline(cacheKey string, host string, d
 		}
 
 	}
-	verifsim.Yield("dns_control.go:1702")
+	verifsim.Yield("dns_control.go:1695")
 
 	newCache.lastAccessNano.Store(now.UnixNano())
 	var staleSideEffects *DnsCache
-	verifsim.Yield("dns_control.go:1704")
+	verifsim.Yield("dns_control.go:1697")
 	if oldValue, ok := c.dnsCache.Load(cacheKey); ok {
 		if oldCache, ok := oldValue.(*DnsCache); ok {
 			staleSideEffects = staleDnsSideEffects(oldCache, newCache)
-			verifsim.Yield("dns_control.go:1707")
+			verifsim.Yield("dns_control.go:1700")
 			if last := oldCache.lastAccessNano.Load(); last != 0 {
-				verifsim.Yield("dns_control.go:1708")
+				verifsim.Yield("dns_control.go:1701")
 				newCache.lastAccessNano.Store(last)
 			}
 		}
@@ -1973,7 +1968,7 @@ func (c *DnsController) __updateDnsCacheDeadline(cacheKey string, host string, d
 
 	newCache.RouteOwnerKey = cacheKey
 	newCache.routeLive = c.dnsCacheEntryLive(cacheKey, newCache)
-	verifsim.Yield("dns_control.go:1716")
+	verifsim.Yield("dns_control.go:1709")
 	c.dnsCache.Store(cacheKey, newCache)
 	c.rememberDnsKnowledge(baseKey, originalDeadline)
 
@@ -2086,23 +2081,23 @@ func newCachedDnsForwarder(forwarder DnsForwarder, now time.Time) *cachedDnsForw
 }
 
 func (c *cachedDnsForwarder) touch(now time.Time) {
-	verifsim.Yield("dns_control.go:1828")
+	verifsim.Yield("dns_control.go:1821")
 	c.lastUsedNano.Store(now.UnixNano())
 }
 
 func (c *cachedDnsForwarder) beginUse() bool {
-	verifsim.Yield("dns_control.go:1832")
+	verifsim.Yield("dns_control.go:1825")
 	if c == nil || c.retired.Load() {
 		return false
 	}
-	verifsim.Yield("dns_control.go:1835")
+	verifsim.Yield("dns_control.go:1828")
 	c.inFlight.Add(1)
 	c.touch(time.Now())
-	verifsim.Yield("dns_control.go:1837")
+	verifsim.Yield("dns_control.go:1830")
 	if !c.retired.Load() {
 		return true
 	}
-	verifsim.Yield("dns_control.go:1840")
+	verifsim.Yield("dns_control.go:1833")
 	if c.inFlight.Add(-1) == 0 {
 		_ = c.closeNow()
 	}
@@ -2114,7 +2109,7 @@ func (c *cachedDnsForwarder) endUse() {
 		return
 	}
 	c.touch(time.Now())
-	verifsim.Yield("dns_control.go:1851")
+	verifsim.Yield("dns_control.go:1844")
 	if c.inFlight.Add(-1) == 0 && c.retired.Load() {
 		_ = c.closeNow()
 	}
@@ -2125,7 +2120,7 @@ func (c *cachedDnsForwarder) closeNow() error {
 		return nil
 	}
 	var err error
-	verifsim.Yield("dns_control.go:1861")
+	verifsim.Yield("dns_control.go:1854")
 	c.closeOnce.Do(func() {
 		if c.forwarder != nil {
 			err = c.forwarder.Close()
@@ -2138,9 +2133,9 @@ func (c *cachedDnsForwarder) retire() error {
 	if c == nil {
 		return nil
 	}
-	verifsim.Yield("dns_control.go:1873")
+	verifsim.Yield("dns_control.go:1866")
 	c.retired.Store(true)
-	verifsim.Yield("dns_control.go:1874")
+	verifsim.Yield("dns_control.go:1867")
 	if c.inFlight.Load() == 0 {
 		return c.closeNow()
 	}
@@ -2169,12 +2164,12 @@ func (c *DnsController) evictIdleDnsForwarders(now time.Time) {
 	idleNano := c.dnsForwarderIdleTTL.Nanoseconds()
 	var toClose []DnsForwarder
 	var toRetire []*cachedDnsForwarder
-	verifsim.Yield("dns_control.go:1903")
+	verifsim.Yield("dns_control.go:1896")
 
 	c.dnsForwarderCache.Range(func(key, value any) bool {
 		k, ok := key.(dnsForwarderKey)
 		if !ok {
-			verifsim.Yield("dns_control.go:1906")
+			verifsim.Yield("dns_control.go:1899")
 			c.dnsForwarderCache.Delete(key)
 			return true
 		}
@@ -2182,27 +2177,27 @@ func (c *DnsController) evictIdleDnsForwarders(now time.Time) {
 		entry, ok := value.(*cachedDnsForwarder)
 		if !ok {
 			if forwarder := c.extractDnsForwarder(value); forwarder != nil {
-				verifsim.Yield("dns_control.go:1913")
+				verifsim.Yield("dns_control.go:1906")
 				if c.dnsForwarderCache.CompareAndDelete(k, value) {
 					toClose = append(toClose, forwarder)
 				}
 			} else {
-				verifsim.Yield("dns_control.go:1917")
+				verifsim.Yield("dns_control.go:1910")
 				c.dnsForwarderCache.Delete(k)
 			}
 			return true
 		}
-		verifsim.Yield("dns_control.go:1922")
+		verifsim.Yield("dns_control.go:1915")
 
 		if entry.inFlight.Load() > 0 {
 			return true
 		}
-		verifsim.Yield("dns_control.go:1925")
+		verifsim.Yield("dns_control.go:1918")
 		lastUsedNano := entry.lastUsedNano.Load()
 		if lastUsedNano == 0 || nowNano-lastUsedNano <= idleNano {
 			return true
 		}
-		verifsim.Yield("dns_control.go:1930")
+		verifsim.Yield("dns_control.go:1923")
 
 		if c.dnsForwarderCache.CompareAndDelete(k, entry) {
 			toRetire = append(toRetire, entry)
@@ -2284,7 +2279,7 @@ func (c *DnsController) shouldRetireCachedDnsForwarder(upstream *dns.Upstream, d
 	if upstream == nil || !isProxyBackedDialer(dialArg.bestDialer) {
 		return false
 	}
-	verifsim.Yield("dns_control.go:2019")
+	verifsim.Yield("dns_control.go:2012")
 
 	if entry != nil && entry.consecutiveErrors.Load() >= maxConsecutiveForwardErrors {
 		return true
@@ -2307,7 +2302,7 @@ func (c *DnsController) retireCachedDnsForwarder(key dnsForwarderKey, entry *cac
 	if entry == nil {
 		return
 	}
-	verifsim.Yield("dns_control.go:2043")
+	verifsim.Yield("dns_control.go:2036")
 	if !c.dnsForwarderCache.CompareAndDelete(key, entry) {
 		return
 	}
@@ -2343,7 +2338,7 @@ func (c *DnsController) getOrCreateDnsForwarder(upstream *dns.Upstream, dialArg 
 	now := time.Now()
 
 	for range 3 {
-		verifsim.Yield("dns_control.go:2078")
+		verifsim.Yield("dns_control.go:2071")
 		if cached, ok := c.dnsForwarderCache.Load(key); ok {
 			switch entry := cached.(type) {
 			case *cachedDnsForwarder:
@@ -2351,13 +2346,13 @@ func (c *DnsController) getOrCreateDnsForwarder(upstream *dns.Upstream, dialArg 
 				return entry, nil
 			case DnsForwarder:
 				wrapped := newCachedDnsForwarder(entry, now)
-				verifsim.Yield("dns_control.go:2085")
+				verifsim.Yield("dns_control.go:2078")
 				if c.dnsForwarderCache.CompareAndSwap(key, cached, wrapped) {
 					return wrapped, nil
 				}
 				continue
 			default:
-				verifsim.Yield("dns_control.go:2090")
+				verifsim.Yield("dns_control.go:2083")
 				c.dnsForwarderCache.CompareAndDelete(key, cached)
 				continue
 			}
@@ -2370,7 +2365,7 @@ func (c *DnsController) getOrCreateDnsForwarder(upstream *dns.Upstream, dialArg 
 		return nil, createErr
 	}
 	created := newCachedDnsForwarder(createdForwarder, now)
-	verifsim.Yield("dns_control.go:2103")
+	verifsim.Yield("dns_control.go:2096")
 
 	actual, loaded := c.dnsForwarderCache.LoadOrStore(key, created)
 	if loaded {
@@ -2382,11 +2377,11 @@ func (c *DnsController) getOrCreateDnsForwarder(upstream *dns.Upstream, dialArg 
 		}
 		if old, ok := actual.(DnsForwarder); ok {
 			wrapped := newCachedDnsForwarder(old, now)
-			verifsim.Yield("dns_control.go:2113")
+			verifsim.Yield("dns_control.go:2106")
 			if c.dnsForwarderCache.CompareAndSwap(key, actual, wrapped) {
 				return wrapped, nil
 			}
-			verifsim.Yield("dns_control.go:2116")
+			verifsim.Yield("dns_control.go:2109")
 			if latest, ok := c.dnsForwarderCache.Load(key); ok {
 				if latestEntry, ok := latest.(*cachedDnsForwarder); ok {
 					latestEntry.touch(now)
@@ -2416,7 +2411,7 @@ func (c *DnsController) forwardWithDialArg(ctx context.Context, upstream *dns.Up
 		if err != nil {
 
 			if !errors.Is(err, ErrDNSTruncated) {
-				verifsim.Yield("dns_control.go:2149")
+				verifsim.Yield("dns_control.go:2142")
 				entry.consecutiveErrors.Add(1)
 				if c.shouldRetireCachedDnsForwarder(upstream, dialArg, entry, err) {
 					c.retireCachedDnsForwarder(key, entry)
@@ -2426,7 +2421,7 @@ func (c *DnsController) forwardWithDialArg(ctx context.Context, upstream *dns.Up
 			}
 			return nil, err
 		}
-		verifsim.Yield("dns_control.go:2158")
+		verifsim.Yield("dns_control.go:2151")
 		entry.consecutiveErrors.Store(0)
 		return respMsg, nil
 	}
@@ -2497,15 +2492,15 @@ func (c *DnsController) HandleWithResponseWriter_(ctx context.Context, dnsMessag
 	c.requireStore()
 	var upstreamIndex consts.DnsRequestOutboundIndex
 	var upstream *dns.Upstream
-	verifsim.Yield("dns_control.go:2232")
+	verifsim.Yield("dns_control.go:2225")
 
 	if cap(c.concurrencyLimiter) > 0 {
 		{
-			verifsim.Yield("dns_control.go:2233")
+			verifsim.Yield("dns_control.go:2226")
 			_vc48 := c.concurrencyLimiter
 			_vs49 := struct{}{}
 			_vi50 := -1
-			for _, _vo51 := range verifsim.SelectOrder("dns_control.go:2233", 1) {
+			for _, _vo51 := range verifsim.SelectOrder("dns_control.go:2226", 1) {
 				switch _vo51 {
 				case 0:
 					select {
@@ -2521,9 +2516,9 @@ func (c *DnsController) HandleWithResponseWriter_(ctx context.Context, dnsMessag
 			switch _vi50 {
 			case 0:
 				defer func() {
-					verifsim.Yield("dns_control.go:2235")
+					verifsim.Yield("dns_control.go:2228")
 					<-c.concurrencyLimiter
-					verifsim.Yield("dns_control.go:2235+")
+					verifsim.Yield("dns_control.go:2228+")
 				}()
 			default:
 
@@ -2578,7 +2573,7 @@ func (c *DnsController) HandleWithResponseWriter_(ctx context.Context, dnsMessag
 					_va55 := req
 					_va56 := upstreamIndex
 					_va57 := upstream
-					verifsim.Go("dns_control.go:2285", func() {
+					verifsim.Go("dns_control.go:2278", func() {
 						_vf52(_va53, _va54, _va55, _va56, _va57)
 					})
 				}
@@ -2601,7 +2596,7 @@ func (c *DnsController) HandleWithResponseWriter_(ctx context.Context, dnsMessag
 			}
 			return nil
 		}
-		verifsim.Yield("dns_control.go:2309")
+		verifsim.Yield("dns_control.go:2302")
 
 		res, err, _ := c.sf.Do(responseCacheKey, func() (any, error) {
 
@@ -2610,7 +2605,7 @@ func (c *DnsController) HandleWithResponseWriter_(ctx context.Context, dnsMessag
 
 			return c.resolveForSingleflight(resCtx, dnsMessage, req, upstreamIndex, upstream, responseCacheKey, baseCacheKey)
 		})
-		verifsim.Yield("dns_control.go:2309+")
+		verifsim.Yield("dns_control.go:2302+")
 
 		if err != nil {
 			return err
@@ -2767,7 +2762,7 @@ func (c *DnsController) handleWithResponseWriter_(
 				_va61 := req
 				_va62 := upstreamIndex
 				_va63 := upstream
-				verifsim.Go("dns_control.go:2490", func() {
+				verifsim.Go("dns_control.go:2483", func() {
 					_vf58(_va59, _va60, _va61, _va62, _va63)
 				})
 			}
@@ -2826,7 +2821,7 @@ func (c *DnsController) writeCachedResponse(resp []byte, reqId uint16, req *udpR
 	}
 
 	if len(resp) >= 2 && len(resp) <= 1024 {
-		verifsim.Yield("dns_control.go:2557")
+		verifsim.Yield("dns_control.go:2550")
 		bufPtr := dnsResponseBufPool.Get().(*[]byte)
 		defer dnsResponseBufPool.Put(bufPtr)
 
@@ -3128,7 +3123,7 @@ func (c *DnsController) dialSend(
 		if err = sendRuntimeTrackedPkt(c.log, data, req.realDst, req.realSrc, req.downloadRecorder()); err != nil {
 			return err
 		}
-		verifsim.Go("dns_control.go:2906", func() {
+		verifsim.Go("dns_control.go:2899", func() {
 			defer func() {
 				if r := recover(); r != nil {
 					c.log.Errorf("panic in async DNS cache: %v", r)
